@@ -338,6 +338,10 @@ type retOf struct {
 
 func (r retOf) Name() string { return r.Value.Name() + "#" + string(rune('0'+r.idx)) }
 
+// ResultFact is the fact key under which an interprocedural walk (WalkDeep) takes the nilness of
+// result #idx of a multi-result call from its initial facts.
+func ResultFact(call ssa.Value, idx int) ssa.Value { return retOf{call, idx} }
+
 // WalkDepth: number of frames entered at the instruction currently shown to a callback.
 var WalkDepth int
 
@@ -1107,6 +1111,14 @@ func WalkDeep(maxDepth int, skip func(*ssa.Function) bool, f func()) {
 	walkDescend = &walkDescendMode{MaxDepth: maxDepth, Skip: skip}
 	defer func() { walkDescend = saved }()
 	f()
+}
+
+// WalkDeepUp is WalkDeep with the continuation in callers (DeepUp) switched on.
+func WalkDeepUp(maxDepth int, f func()) {
+	WalkDeep(maxDepth, nil, func() {
+		walkDescend.Up = DeepUp
+		f()
+	})
 }
 
 // DeepUp, when set, lets the deep path searches continue in the callers of the function they
